@@ -38,6 +38,12 @@ impl SketchSlice<'_> {
         self.slice.set_position(pos + n);
     }
 
+    /// Returns the number of bytes that have not been read yet.
+    pub(crate) fn remaining(&self) -> usize {
+        let len = self.slice.get_ref().len();
+        len.saturating_sub(self.slice.position().min(len as u64) as usize)
+    }
+
     /// Reads exactly `buf.len()` bytes from the slice into `buf`.
     pub fn read_exact(&mut self, buf: &mut [u8]) -> io::Result<()> {
         self.slice.read_exact(buf)
